@@ -465,6 +465,12 @@ def score_chunk_fn(ctx):
     """score_chunk, with a hand-written array_split layout (telescoping divmod bounds) rewritten to the library call"""
     import copy as _copy
     f = ctx.fn("scoring.main.score_chunk")
+    fused = common.fuse_chain_links(f.node)            # chunks = array_split(..); mine = chunks[i].tolist()  is one chain
+    if U(fused) != U(f.node):
+        f = _copy.copy(f)
+        f.node = fused
+        from engine.normalize import renumber
+        renumber(f.node)
     if [c for c in calls(f.node, name="np.array_split")]:
         node = canon_position_chunks(f.node)
         if node is None:
